@@ -25,14 +25,14 @@ STR_NONE_VALUES = {""}
 
 def coerce(cls: Type[T], data: Any) -> T:
     if cls is NoneType:
-        if data is None or data in STR_NONE_VALUES:
+        if data is None or (isinstance(data, str) and data in STR_NONE_VALUES):
             return None  # type: ignore
         else:
             raise bad_type(data, cls)
     elif isinstance(data, cls):
         return data
     elif cls is bool:
-        if isinstance(data, str):
+        if isinstance(data, str) and data.lower() in STR_TO_BOOL:
             return STR_TO_BOOL[data.lower()]  # type: ignore
         elif isinstance(data, int):
             return bool(data)  # type: ignore
@@ -41,7 +41,7 @@ def coerce(cls: Type[T], data: Any) -> T:
     elif cls in (int, float):
         try:
             return cls(data)  # type: ignore
-        except ValueError:
+        except (ValueError, TypeError, OverflowError):
             raise bad_type(data, cls)
     elif cls is str:
         if isinstance(data, (int, float)) and not isinstance(data, bool):
